@@ -1,16 +1,39 @@
 #!/venv/bin/python
 """MANIFEST.setup_cmd: build (offline) exactly the Lean modules the claimed checks need.
-A half-finished, unclaimed property can therefore never break the set-up of the claimed ones."""
-import importlib, json, os, subprocess, sys
+A half-finished, unclaimed property can therefore never break the set-up of the claimed ones.
+
+The generated modules (lean/PyrollModel/Gen/*.lean) are first regenerated from /repo's working tree by the translators
+of the claimed checks, exactly as every check does, so a stale committed generated file cannot fail the set-up.
+If /repo's current source no longer satisfies a proof obligation, that is for the property's check to report (it
+rebuilds on every run); the set-up then only has to leave a working Lean project behind, so it exits 0 as long as the
+shared base modules build."""
+import importlib, json, os, subprocess, sys, traceback
 here = os.path.dirname(os.path.dirname(os.path.abspath(__file__)))
 sys.path.insert(0, here)
+repo = os.environ.get("VERIF_REPO", "/repo")
+sys.path.insert(1, repo)
+os.environ.setdefault("MPLBACKEND", "Agg")
 m = json.load(open(os.path.join(here, "MANIFEST.json")))
+from driver import core
 targets = []
 for c in m["checks"]:
-    mod = importlib.import_module("driver.props." + c["property_id"].lower())
+    pid = c["property_id"]
+    mod = importlib.import_module("driver.props." + pid.lower())
+    if hasattr(mod, "translate"):
+        try:
+            mod.translate(core.Ctx(pid, "quick", 0))
+        except Exception:
+            print(f"setup: translator of {pid} failed (left to the check to report):", file=sys.stderr)
+            traceback.print_exc()
     for t in list(getattr(mod, "LEAN_MODULES", [])) + list(getattr(mod, "MODEL_MODULES", [])):
         if t not in targets:
             targets.append(t)
-print("building", len(targets), "lean targets")
+print("building", len(targets), "lean targets", flush=True)
 r = subprocess.run(["lake", "build"] + targets, cwd=os.path.join(here, "lean"))
+if r.returncode != 0:
+    print("setup: some targets did not build; building them one by one (each check reports its own)", flush=True)
+    for t in targets:
+        subprocess.run(["lake", "build", t], cwd=os.path.join(here, "lean"), stdout=subprocess.DEVNULL)
+    r = subprocess.run(["lake", "build", "PyrollModel.Num", "PyrollModel.Expr", "PyrollProofs.RealNum"],
+                       cwd=os.path.join(here, "lean"))
 sys.exit(r.returncode)
